@@ -43,6 +43,7 @@ def h_hist(t, part):
     with notrace():
         w, live = build(asyncio_)
     model = {}        # sid -> {id: tag}
+    used = {}         # sid -> ids that were issued and answered
     fired = []
     boom_at = t.int(-1, 1)       # which callback invocation raises (-1: none)
 
@@ -83,6 +84,10 @@ def h_hist(t, part):
             return Fail('ack:emit-namespace', repr(worlds.pk(pk[0])))
         if i in model.setdefault(sid, {}):
             return Fail('ack:id-reused', 'id %r already outstanding for %s: %r' % (i, sid, model[sid]))
+        if i in used.get(sid, ()):
+            # "acknowledgements with an already used id are ignored": an id that was answered stays dead for that connection
+            return Fail('ack:id-reused-after-answer', 'id %r was already issued to %s and answered; a duplicate of that '
+                        'acknowledgement would now invoke %r' % (i, sid, tag))
         model[sid][i] = tag
         return None
 
@@ -135,6 +140,7 @@ def h_hist(t, part):
             if known:
                 nontriv += 1
                 tag = model[sid].pop(i)
+                used.setdefault(sid, set()).add(i)
                 if fired[nfired:] != [(tag, tuple(data))]:
                     return Fail('ack:callback-args', 'expected %r got %r' % ((tag, tuple(data)), fired[nfired:]))
             else:
